@@ -350,6 +350,76 @@ def run(ctx, report):
                     R7.violation(inst, 'shared-table:%s:%s:%s' % (fn.name, u(tgt), what), '%s mutates the module-level object %s in place (%s)' % (fn.name, u(tgt), what), where(m, n))
             if not bad:
                 R7.ok(inst, nontrivial=(len(R7.nontrivial) < 400))
+    # D7, second part: the tables of a module-level instance (x86mndb = x86allmncs()) are filled by __init__ and what it calls; any other method is
+    # reached from the API and must not change them (a lookup that inserts leaves state behind for the next call)
+    n_shared = 0
+    for m in mods:
+        classes = dict((st.name, st) for st in m.tree.body if isinstance(st, ast.ClassDef))
+        shared_inst = {}
+        for st in m.tree.body:
+            if isinstance(st, ast.Assign) and isinstance(st.value, ast.Call) and isinstance(st.value.func, ast.Name) and st.value.func.id in classes \
+                    and isinstance(st.targets[0], ast.Name):
+                shared_inst[st.value.func.id] = st.targets[0].id
+        for cname, iname in sorted(shared_inst.items()):
+            meths = dict((n.name, n) for n in classes[cname].body if isinstance(n, ast.FunctionDef))
+            build, work = set(['__init__']), ['__init__']
+            while work:
+                mm = work.pop()
+                for n in ast.walk(meths.get(mm, ast.Pass())):
+                    if isinstance(n, ast.Attribute) and isinstance(n.value, ast.Name) and n.value.id == 'self' and n.attr in meths and n.attr not in build:
+                        build.add(n.attr)
+                        work.append(n.attr)
+            # methods the rest of the program calls on the shared instance (x86mndb.find_mnemo(..)), and what they call
+            runtime, work = set(), []
+            for m2 in mods:
+                for n in ast.walk(m2.tree):
+                    if isinstance(n, ast.Attribute) and isinstance(n.value, ast.Name) and n.value.id == iname and n.attr in meths and n.attr not in runtime:
+                        runtime.add(n.attr)
+                        work.append(n.attr)
+            while work:
+                mm = work.pop()
+                for n in ast.walk(meths[mm]):
+                    if isinstance(n, ast.Attribute) and isinstance(n.value, ast.Name) and n.value.id == 'self' and n.attr in meths and n.attr not in runtime:
+                        runtime.add(n.attr)
+                        work.append(n.attr)
+            for mname, fn in sorted(meths.items()):
+                if mname in build and mname not in runtime:
+                    continue
+                n_shared += 1
+                inst = '%s::%s.%s (shared instance %s)' % (m.name, cname, mname, iname)
+                bad = False
+                for n in ast.walk(fn):
+                    tgt = what = None
+                    if isinstance(n, ast.Call) and isinstance(n.func, ast.Attribute) and n.func.attr in MUT:
+                        tgt, what = n.func.value, '.%s()' % n.func.attr
+                    elif isinstance(n, (ast.Assign, ast.AugAssign)):
+                        for tg in (n.targets if isinstance(n, ast.Assign) else [n.target]):
+                            if isinstance(tg, ast.Subscript):
+                                tgt, what = tg.value, 'item assignment'
+                    elif isinstance(n, ast.Delete):
+                        for tg in n.targets:
+                            if isinstance(tg, ast.Subscript):
+                                tgt, what = tg.value, 'item deletion'
+                    if tgt is None:
+                        continue
+                    r = tgt
+                    while isinstance(r, (ast.Attribute, ast.Subscript)) and not (isinstance(r, ast.Attribute) and isinstance(r.value, ast.Name) and r.value.id == 'self'):
+                        r = r.value
+                    if isinstance(r, ast.Attribute) and isinstance(r.value, ast.Name) and r.value.id == 'self':
+                        bad = True
+                        R7.violation(inst, 'shared-instance:%s.%s:%s:%s' % (cname, mname, u(tgt), what), '%s.%s changes %s in place (%s); %s is the module-level instance every call shares and '
+                                     'this method is not part of its construction: a call leaves state behind for the next one' % (cname, mname, u(tgt), what, iname), where(m, n),
+                                     witness="asm('cmovnel eax, ebx') returns [] and adds the key; asm_att('cmovnel %ebx, %eax') then returns [] instead of 0f 45 c3"
+                                     if mname == 'find_mnemo' else None)
+                if not bad:
+                    R7.ok(inst, nontrivial=(len(R7.nontrivial) < 420))
+    if n_shared == 0:
+        raise AnalysisError('no module-level instance with run-time methods found (x86mndb = x86allmncs() expected)')
+
+    R10 = report.rule('C12.D10', 'copy() of every node class is a deep copy (the freshness argument of D3 rests on it)', floor=8)
+    from .c15 import copy_visit_rule as _cvr
+    _cvr(ctx, R10, only='copy')
+
     # ---------------------------------------------------------------- D8 process-wide loggers are configured once
     R8 = report.rule('C12.D8', 'no function configures a process-wide logger (addHandler / setLevel on logging.getLogger(name)) on every call', floor=1)
     n_sites = 0
@@ -480,4 +550,6 @@ MUTANTS = [
     ('logger-every-call', 'miasmx/expression/expression_eval_abstract.py', "            if not log.handlers:\n                # the logger is shared by every machine: configure it once\n", "            if True:\n", 'C12.D8'),
     ('intel-lexer-lineno-kept', 'miasmx/core/parse_ad.py', "    lexer_intel.lineno = 1\n", "", 'C12.D9'),
     ('att-lexer-lineno-kept', 'miasmx/arch/ia32_att.py', "    lexer_att.lineno = 1\n", "", 'C12.D9'),
+    ('slice-copy-removed', 'miasmx/expression/expression.py', "    def copy(self):\n        return ExprSlice(self.arg.copy(), self.start, self.stop)\n", "", 'C12.D10'),
+    ('find-mnemo-inserts', 'miasmx/arch/ia32_arch.py', "        if name in self.mnemo_lookup.keys():\n            return self.mnemo_lookup[name]\n        else:\n            return []", "        return self.mnemo_lookup.setdefault(name, [])", 'C12.D7'),
 ]
